@@ -315,7 +315,6 @@ def reader_for_root(E, root, src_kind, src_val):
         '_restore_fn': NONE, '_restore_args': NONE, '$root': SNode(root), '$src': src_val})
 
 
-@contract('mosromgr.moscollection.MosReader.from_string')
 class ReaderFromString(Contract):
     """caller-facing: a reader is a function of the document text (message id = numeric messageID, class per C08)"""
     props = ()
@@ -329,7 +328,6 @@ class ReaderFromString(Contract):
                 Case('invalid', exc='MosRoMgrException', assume=[z3.Not(ok)])]
 
 
-@contract('mosromgr.moscollection.MosReader.from_file')
 class ReaderFromFile(Contract):
     props = ()
     body_proved = False
@@ -445,6 +443,18 @@ class FromManyContract(Contract):
         j = z3.Int('j!in')
         st.assume(z3.ForAll([j], f(j) != none_s, patterns=[f(j)]))
         return st, {'cls': SCls(E.repo.cls('MosCollection')), self.arg: xs, 'allow_incomplete': SBool(W.fresh('allow', L.B))}
+
+    def requires(self, cx):
+        from .classify import schema_doc
+        xs = cx.a[self.arg]
+        j = z3.Int('j!fm')
+        t = xs.elem(j).t
+        if self.arg == 'mos_file_strings':
+            ok, root = wellformed(t), parse_root(t)
+        else:
+            ok, root = A(file_readable(t), wellformed(file_text(t))), parse_root(file_text(t))
+        return [('inputs_are_schema_shaped_messages_when_well_formed',
+                 z3.ForAll([j], Imp(A(0 <= j, j < xs.length, ok), schema_doc(cx.W, cx.H, root)), patterns=[t]))]
 
     def ensures(self, cx, ex):
         inits = [a for a in ex.st.addlog if a[0] == 'init']
